@@ -58,7 +58,7 @@ class SimpleBlock(Block):
                 raise ValueError(f'Keyword argument {k}={v} is scalar, should be time path.')
             input_args[k] = Displace(v + ss[k], ss[k], ss_initial[k], k)
 
-        for k in self.inputs:
+        for k in self.f.inputs:
             if k not in input_args:
                 if not ss_initial_flag or (ss_initial_flag and np.array_equal(ss_initial[k], ss[k])):
                     input_args[k] = ignore(ss[k])
@@ -90,10 +90,10 @@ class SimpleBlock(Block):
         return JacobianDict(J, outputs, inputs, self.name, T)
 
     def compute_single_shock_J(self, ss, i):
-        input_args = {i: ignore(ss[i]) for i in self.inputs}
+        input_args = {i: ignore(ss[i]) for i in self.f.inputs}
         input_args[i] = AccumulatedDerivative(f_value=ss[i])
 
-        J = {o: {} for o in self.outputs}
+        J = {o: {} for o in self.f.outputs}
         for o_name, o in self.f(input_args).items():
             if isinstance(o, AccumulatedDerivative):
                 J[o_name] = SimpleSparse(o.elements)
